@@ -271,7 +271,37 @@ Proof.
   all: try solve [intros Hin; apply in_app_or in Hin; destruct Hin as [Hin|Hin]; [contradiction|];
                   apply in_map_iff in Hin; destruct Hin as ([[v ch|q|]|] & E & Hin); cbn in E; try discriminate;
                   apply In_nth_error in Hin; destruct Hin as [i' Hin]; eapply Vs; eassumption].
-  all: idtac "REMAIN". Show.
-Admitted.
+  all: try solve [destruct (tcaller (thr s id)) as [c|] eqn:Ec; [|discriminate]; apply Nat.eqb_eq in Heqb; subst c;
+                  pose proof (Vb _ _ _ _ eq_refl eq_refl k0 (or_introl eq_refl));
+                  pose proof (Hrank k0 k eq_refl eq_refl); lia].
+  all: try solve [intros k1 Hk1 d' Hd'; apply (Vst k1 Hk1); rewrite firstn_all2; [assumption|];
+                  apply nth_error_None in Heqo; lia].
+  all: try solve [intros k1 Hk1 d' Hd'; apply (Vst k1 Hk1); cbn [firstn] in Hd'; rewrite app_nil_r in Hd'; assumption].
+  - (* one node of the cycle check *)
+    intros o' q' sn' d' Hq Hd x Hx. inversion Hq; inversion Hd; subst.
+    destruct (bfs_push_in _ _ _ _ _ _ Heqp x Hx) as [Hin|Hin].
+    + apply (Vb _ _ _ _ eq_refl eq_refl). right. assumption.
+    + apply deps_of_In in Hin. pose proof (k_e1 _ Hk _ _ Hin) as Hf. pose proof (Hdag _ _ _ Hf).
+      pose proof (Vb _ _ _ _ eq_refl eq_refl k0 (or_introl eq_refl)). lia.
+  - intros k1 Hk1 d' Hd'. inversion Hk1; subst k1. rewrite (nth_error_nth _ _ _ Heqo) in *.
+    rewrite (firstn_S_nth _ _ _ Heqo0) in Hd'. rewrite app_assoc in Hd'. apply in_app_or in Hd'.
+    destruct Hd' as [Hd'|[<-|[]]]; [apply (Vst _ eq_refl); assumption|apply Enew; reflexivity].
+  - intros k1 Hk1 d' Hd'. inversion Hk1; subst k1. rewrite (nth_error_nth _ _ _ Heqo) in *.
+    rewrite (firstn_S_nth _ _ _ Heqo0) in Hd'. rewrite app_assoc in Hd'. apply in_app_or in Hd'.
+    destruct Hd' as [Hd'|[<-|[]]]; [apply (Vst _ eq_refl); assumption|apply Enew; reflexivity].
+  - intros k1 Hk1 d' Hd'. inversion Hk1; subst k1. rewrite (nth_error_nth _ _ _ Heqo) in *.
+    rewrite (firstn_S_nth _ _ _ Heqo0) in Hd'. rewrite app_assoc in Hd'. apply in_app_or in Hd'.
+    destruct Hd' as [Hd'|[<-|[]]]; [apply (Vst _ eq_refl); assumption|apply Enew; reflexivity].
+  - intros k1 Hk1 d' Hd'. apply (Vst k1 Hk1). rewrite (nth_error_nth _ _ _ Heqo).
+    rewrite (firstn_S_nth _ _ _ Heqo), concat_app in Hd'. cbn [concat] in Hd'. rewrite app_nil_r in Hd'.
+    apply nth_error_None in Heqo0. rewrite firstn_all2 by assumption. assumption.
+  - intros i' q' Hn. destruct (Nat.eq_dec i' n) as [->|Hne].
+    + destruct (le_lt_dec (length (tslots (thr s id))) n) as [Hle|Hlt].
+      * assert (nth_error (set_slot (tslots (thr s id)) n d) n = None) as E
+          by (apply nth_error_None; rewrite set_slot_length; assumption). congruence.
+      * rewrite set_slot_same in Hn by assumption. inversion Hn; subst d.
+        destruct (tmap s k) as [| |o']; try discriminate. destruct (oclosed (objs s o')); discriminate.
+    + rewrite set_slot_other in Hn by assumption. eapply Vs; eassumption.
+Qed.
 
 End Inv3.
